@@ -415,13 +415,13 @@ func (reader *DataReader) next() ([]byte, *DataPos, error) {
 		off := int64(reader.blockID) * blockSize
 		// 当前 block 起始位置已到达或超过文件末尾, 避免下方差值为负数转换为 uint32 后溢出
 		if off >= fileSize {
-			return nil, nil, io.EOF
+			return nil, nil, reader.endOfLog(cnt)
 		}
 		// 当前 block 实际大小
 		size := uint32(min(fileSize-off, blockSize))
 
 		if reader.offset >= size {
-			return nil, nil, io.EOF
+			return nil, nil, reader.endOfLog(cnt)
 		}
 
 		// 从共享缓冲区中读取
@@ -439,7 +439,7 @@ func (reader *DataReader) next() ([]byte, *DataPos, error) {
 			// (mmap 预扩展后从未写入的部分), 均视为日志结束而非数据损坏
 			if (err == ErrIncompleteChunk && reader.tolerateTornTail && off+int64(size) == fileSize) ||
 				reader.dataFile.zeroUntilEnd(off+int64(reader.offset), fileSize) {
-				return nil, nil, io.EOF
+				return nil, nil, reader.endOfLog(cnt)
 			}
 			// mmap 预扩展文件断电后, 最后一条记录可能只落盘了前半部分, 其余为 0:
 			// chunk 声明的范围之后(至少 1 字节)直到文件末尾全为 0, 同样视为未写完的记录.
@@ -451,7 +451,7 @@ func (reader *DataReader) next() ([]byte, *DataPos, error) {
 					end = min(end, off+int64(reader.offset)+chunkHeaderSize+length)
 				}
 				if end < fileSize && reader.dataFile.zeroUntilEnd(end, fileSize) {
-					return nil, nil, io.EOF
+					return nil, nil, reader.endOfLog(cnt)
 				}
 			}
 			if err == ErrIncompleteChunk {
@@ -479,6 +479,16 @@ func (reader *DataReader) next() ([]byte, *DataPos, error) {
 	pos.Size = cnt*chunkHeaderSize + uint32(len(res))
 
 	return res, pos, nil
+}
+
+// endOfLog 日志在当前位置结束时 next 的返回值, cnt 为当前记录已读取的 chunk 数量.
+// 记录读取到一半时日志结束 (包括文件恰好在 block 边界处被截断), 只有可能留有未写完尾部的
+// 当前活跃文件才视为日志结束; 其余文件在切换之前已完整持久化, 此时只能是数据损坏
+func (reader *DataReader) endOfLog(cnt uint32) error {
+	if cnt > 0 && !reader.tolerateTornTail {
+		return ErrInvalidCRC
+	}
+	return io.EOF
 }
 
 // ValidEnd 返回已完整读取的最后一条记录的结束位置
